@@ -368,7 +368,9 @@ func aspLitFmt(c *caseRec) map[string]any {
 
 func aspIdentURL(c *caseRec) map[string]any {
 	url, url2 := runIDTwice(c.Text, reference.IdentityFromURL)
-	abs, abs2 := runIDTwice(c.Text, reference.IdentityFromAbsoluteURL)
+	// an Identity has no base URL, so IdentityFromAbsoluteURL has no format -> parse round trip
+	abs, _ := runID(func() (*resource.Identity, error) { return reference.IdentityFromAbsoluteURL(c.Text) })
+	abs2 := emptyID("skip")
 	rel, rel2 := runIDTwice(c.Rel, reference.IdentityFromRelativeURI)
 	return map[string]any{"aspect": "identurl", "url": url, "url2": url2, "abs": abs, "abs2": abs2, "rel": rel, "rel2": rel2}
 }
